@@ -92,10 +92,10 @@ func c48Scenarios() []c48Scn {
 		c48Scn{Name: "svg-subdir-sketch", Thorough: true, Cmd: "render-svg", Files: map[string]string{"in.d2": c48Diagram(6), "o/out.svg": c48Old(70000)}, Args: []string{"--sketch", "in.d2", "o/out.svg"}, Targets: []string{"o/out.svg"}},
 		c48Scn{Name: "svg-root-board-of-multiboard", Thorough: true, Cmd: "render-svg", Files: map[string]string{"in.d2": "a -> b\nlayers: {l: {c}}\n", "out.svg": c48Old(500)}, Args: []string{"--target", "", "in.d2", "out.svg"}, Targets: []string{"out.svg"}},
 		c48Scn{Name: "txt-2-shapes-old-small", Cmd: "render-txt", Files: map[string]string{"in.d2": "x -> y\n", "out.txt": "old text\n"}, Args: []string{"in.d2", "out.txt"}, Targets: []string{"out.txt"}},
-		c48Scn{Name: "txt-12-shapes-old-64KiB", Cmd: "render-txt", Files: map[string]string{"in.d2": c48Diagram(12), "out.txt": c48Old(65537)}, Args: []string{"in.d2", "out.txt"}, Targets: []string{"out.txt"}},
+		c48Scn{Name: "txt-12-shapes-old-64KiB", Thorough: true, Cmd: "render-txt", Files: map[string]string{"in.d2": c48Diagram(12), "out.txt": c48Old(65537)}, Args: []string{"in.d2", "out.txt"}, Targets: []string{"out.txt"}},
 		c48Scn{Name: "txt-ascii-standard", Thorough: true, Cmd: "render-txt", Files: map[string]string{"in.d2": c48Diagram(3), "out.txt": c48Old(4095)}, Args: []string{"--ascii-mode", "standard", "in.d2", "out.txt"}, Targets: []string{"out.txt"}},
 		c48Scn{Name: "svg-150-shapes", Thorough: true, Cmd: "render-svg", Files: map[string]string{"in.d2": c48Diagram(150), "out.svg": c48Old(65537)}, Args: []string{"in.d2", "out.svg"}, Targets: []string{"out.svg"}},
-		c48Scn{Name: "txt-60-shapes", Thorough: true, Cmd: "render-txt", Files: map[string]string{"in.d2": c48Diagram(60), "out.txt": c48Old(100)}, Args: []string{"in.d2", "out.txt"}, Targets: []string{"out.txt"}},
+		c48Scn{Name: "txt-25-shapes", Thorough: true, Cmd: "render-txt", Files: map[string]string{"in.d2": c48Diagram(25), "out.txt": c48Old(100)}, Args: []string{"in.d2", "out.txt"}, Targets: []string{"out.txt"}},
 		c48Scn{Name: "fmt-8MiB", Thorough: true, Cmd: "fmt", Files: map[string]string{"f.d2": c48FmtInput(8 << 20)}, Args: []string{"fmt", "f.d2"}, Targets: []string{"f.d2"}},
 		c48Scn{Name: "svg-dark-theme-center-pad", Thorough: true, Cmd: "render-svg", Files: map[string]string{"in.d2": c48Diagram(9), "out.svg": c48Old(20000)}, Args: []string{"--dark-theme", "200", "--center", "--pad", "7", "in.d2", "out.svg"}, Targets: []string{"out.svg"}},
 		c48Scn{Name: "svg-layer-target", Thorough: true, Cmd: "render-svg", Files: map[string]string{"in.d2": "a -> b\nlayers: {l: {c -> d}}\n", "out.svg": c48Old(500)}, Args: []string{"--target", "layers.l", "in.d2", "out.svg"}, Targets: []string{"out.svg"}},
@@ -242,7 +242,7 @@ func c48Run(sc *c48Scn, mode []string) (sb string, ents []ctEntry, end string, r
 	args := append([]string{"-w", sb, "-o", logp}, mode...)
 	args = append(args, "--", d2)
 	args = append(args, sc.Args...)
-	rc, out, err = runCmd(180*time.Second, sb, cleanEnv(empty), crashtraceBin, args...)
+	rc, out, err = runCmd(c48RunTimeout, sb, cleanEnv(empty), crashtraceBin, args...)
 	if err != nil {
 		return
 	}
@@ -325,6 +325,12 @@ type c48Wit struct {
 }
 
 type harnessError struct{ msg string }
+
+// runTimeout is raised when one traced run exceeds its wall-clock allowance (an overloaded machine): the crash
+// point stays unexplored and the run is reported as not exhaustive.
+type runTimeout struct{ msg string }
+
+const c48RunTimeout = 300 * time.Second
 
 const oTRUNC = 0x200
 
@@ -418,6 +424,9 @@ func c48Crash(in string) eng.Res {
 	}
 	sb, ents, end, rc, out, err := c48Run(sc, mode)
 	defer os.RemoveAll(filepath.Dir(sb))
+	if err != nil && strings.HasPrefix(err.Error(), "timeout after") {
+		panic(runTimeout{fmt.Sprintf("%s %v: %v", w.Scn, mode, err)})
+	}
 	if err != nil {
 		panic(harnessError{fmt.Sprintf("%s %v: %v\n%s", w.Scn, mode, err, out)})
 	}
@@ -534,6 +543,7 @@ func c48Solo(p *eng.Solo) {
 		perScn = append(perScn, map[string]any{"scenario": scns[i].Name, "d2_args": scns[i].Args, "mutating_calls": calls, "kill_points": len(r.ents), "write_calls": writes, "tear_points": tears})
 	}
 	var evals, nontriv int64
+	var timeouts []string
 	outcomes := map[string]int{}
 	samples := []any{}
 	done := parallel(len(wits), 0, p.Expired, func(i int) {
@@ -542,6 +552,12 @@ func c48Solo(p *eng.Solo) {
 		func() {
 			defer func() {
 				if r := recover(); r != nil {
+					if to, ok := r.(runTimeout); ok {
+						mu.Lock()
+						timeouts = append(timeouts, to.msg)
+						mu.Unlock()
+						return
+					}
 					he, ok := r.(harnessError)
 					if !ok {
 						he = harnessError{fmt.Sprint(r)}
@@ -555,6 +571,9 @@ func c48Solo(p *eng.Solo) {
 		}()
 		mu.Lock()
 		defer mu.Unlock()
+		if res.Outcome == "" && res.Fail == nil {
+			return // timed out or harness error: not an evaluation
+		}
 		evals++
 		if res.Nontrivial {
 			nontriv++
@@ -587,7 +606,11 @@ func c48Solo(p *eng.Solo) {
 	p.Coverage["crash_points_planned"] = len(wits)
 	p.Coverage["outcomes"] = oc
 	p.Coverage["outcome_classes"] = len(outcomes)
-	p.Coverage["exhaustive"] = done == len(wits)
+	p.Coverage["exhaustive"] = done == len(wits) && len(timeouts) == 0
+	if len(timeouts) > 0 {
+		sort.Strings(timeouts)
+		p.Coverage["runs_timed_out"] = timeouts
+	}
 	p.Coverage["reference_runs"] = 2 * len(scns)
 }
 
